@@ -6,7 +6,7 @@
 """
 from . import boot                                    # noqa: F401
 from .runner import CaseResult, Part
-from . import schedsim, schedgen, nodelistsim
+from . import schedsim, schedgen, nodelistsim, c01_reserved
 
 PID  = 'C01'
 RULE = ('histories = (node layout incl. blocked cores/GPUs, lfs, mem) x op list (submit bulk / '
@@ -44,10 +44,13 @@ def parts(tier):
         Part('nodelist', nodelistsim.nl_cases(), quick=250, thorough=2500),
         Part('nodelist_numa', nodelistsim.numa_cases(), quick=80, thorough=600),
         Part('nodelist_concurrent', nodelistsim.mt_cases(), quick=150, thorough=1500),
+        Part('reserved_nodes', c01_reserved.cases(), quick=150, thorough=1500),
     ]
 
 
 def run_case(case):
+    if case.get('kind') == 'reserved_nodes':
+        return c01_reserved.run_case(case)
     if case.get('kind') == 'nodelist_mt':
         P, s = nodelistsim.run_nodelist_mt(case)
         res = CaseResult()
